@@ -99,9 +99,8 @@ def declare(spec):
     GATE = ("ite('before_signal' in self.hooks, ev_pid(hooklog[length(old(hooklog))]) == 1, True)")
     # Watcher._found_wids only ever holds an empty container: [] from __init__, {} after the first spawn_processes
     # (never populated anywhere: frame-scans found-wids-writers / found-wids-mutators)
-    spec.pred('found_empty', [('w', Ref('Watcher'))],
-              "(is_list(w._found_wids) and length(vlist_of(w._found_wids)) == 0) or "
-              "(is_obj(w._found_wids) and obj_size(w._found_wids) == 0)")
+    # (the field is modelled as a sequence; the empty dict literal is stored as the empty sequence, see coerce_store)
+    spec.pred('found_empty', [('w', Ref('Watcher'))], "length(w._found_wids) == 0")
     spec.pred('wf_procs_pid', [('w', Ref('Watcher'))],
               "forall(INT, lambda k: implies(k in w.processes, not isnull(w.processes[k]) and w.processes[k].pid == k))")
     spec.add(Contract(
@@ -348,12 +347,13 @@ def declare(spec):
             "not (k in K_child))))",
             'wf_procs_pid(self)', 'excl', 'wf_w(self)',
             ('others-untouched', "forall(Ref('Watcher'), lambda w: implies(w != self, w._status == old(w._status) and "
-             "w.numprocesses == old(w.numprocesses) and w.processes == old(w.processes)))"),
+             "w.numprocesses == old(w.numprocesses) and w.processes == old(w.processes) and len(w.processes) == len(old(w.processes))))"),
             # nothing but this watcher's table and status changes among the protected state; nothing is spawned
             prot(exc=('Watcher.processes', 'Watcher._status', 'Watcher.stream_redirector', 'reaplog')),
             spec.consts['$LOGS'],
             'clock >= old(clock)',
             'implies(old(found_empty(self)), found_empty(self))',
+            "same_field('Process.pid', 'Process.wid')",
         ],
         seq_only=('stopped-noop', 'others-untouched'),
         modifies=['*']))
@@ -397,7 +397,7 @@ def declare(spec):
             "implies(old(self._status) == 'stopped', is_true(result) and same_heap())",
             'length(spawnlog) <= length(old(spawnlog)) + 1', SPKEEP,
             "implies(length(spawnlog) == length(old(spawnlog)) + 1, sig_mode(last(spawnlog)) == ref_id(self) and "
-            "sig_t(last(spawnlog)) >= old(clock))",
+            "sig_t(last(spawnlog)) >= old(clock) and sig_t(last(spawnlog)) <= clock)",
             # success: exactly one new child, registered under its pid, with a fresh positive wid
             "implies(is_real(result), length(spawnlog) == length(old(spawnlog)) + 1 and (%s in self.processes) and "
             "not (%s in old(self.processes)) and self.processes[%s].pid == %s and "
@@ -427,7 +427,7 @@ def declare(spec):
             ('accounted', "forall(INT, lambda p: implies((p in K_child) and not (p in old(K_child)), p in self.processes))"),
             "forall(INT, lambda p: implies(p in old(K_child), p in K_child))",
             prot(exc=('Watcher.processes', 'spawnlog', 'spevlog', 'K_child')), 'excl == old(excl)',
-            "forall(Ref('Watcher'), lambda w: implies(w != self, w.processes == old(w.processes)))",
+            "forall(Ref('Watcher'), lambda w: implies(w != self, w.processes == old(w.processes) and len(w.processes) == len(old(w.processes))))",
             spec.consts['$LOGS'],
             # the same accounting clause outside the known finding F-21 (after_spawn hook falsy / raising)
             "implies(forall(INT, lambda i: implies(length(old(hooklog)) <= i and i < length(hooklog), "
@@ -456,7 +456,8 @@ def declare(spec):
             "q.klog == at('loop0_pre', q.klog) and q.name == at('loop0_pre', q.name) and "
             "q.naps == at('loop0_pre', q.naps) and q.alive_seen == at('loop0_pre', q.alive_seen) and "
             "q._worker == at('loop0_pre', q._worker)))",
-        ], fingerprint='while:nb_tries < self.max_retry or self.max_retry == -1',
+        ], variant_opt='self.max_retry - nb_tries',
+            fingerprint='while:nb_tries < self.max_retry or self.max_retry == -1',
             # only failed creation attempts come back to the loop head
             modifies=['K_alive', 'clock', 'new:Process', 'Process.*'])},
     ))
@@ -470,6 +471,9 @@ def declare(spec):
             "sig_mode(spawnlog[i]) == ref_id(self)))")
     PACED = ("forall(INT, lambda i: implies(length(old(spawnlog)) <= i and i + 1 < length(spawnlog), "
              "sig_t(spawnlog[i + 1]) >= sig_t(spawnlog[i]) + old(self.warmup_delay)))")
+    TIMED = ("forall(INT, lambda i: implies(length(old(spawnlog)) <= i and i < length(spawnlog), "
+             "sig_t(spawnlog[i]) >= old(clock) and sig_t(spawnlog[i]) <= clock))")
+    spec.consts['$TIMED'] = TIMED
     LIFE_REQ = ['excl', 'wf_w(self)', 'not self.on_demand', 'not isnull(self.arbiter)',
                 'found_empty(self)', 'is_str(self.cmd)',
                 'self.warmup_delay >= 0', 'self.graceful_timeout >= 0']
@@ -477,7 +481,7 @@ def declare(spec):
         'circus.watcher:Watcher.spawn_processes', kind='coroutine', rely='held',
         requires=LIFE_REQ + ["self._status != 'stopped'"],
         ensures=[
-            SPKEEP, MINE, PACED, 'excl',
+            SPKEEP, MINE, PACED, ('spawns-timed', TIMED), 'excl',
             # a stopped watcher spawns nothing
             "implies(old(self._status) == 'stopped', spawnlog == old(spawnlog) and same_field('Watcher.processes') "
             "and self._status == 'stopped')",
@@ -495,15 +499,15 @@ def declare(spec):
             prot(exc=('Watcher.processes', 'Watcher._status', 'Watcher.stream_redirector', 'Watcher._found_wids',
                       'spawnlog', 'spevlog', 'reaplog', 'K_child')),
             "implies(self._status != 'stopped', reaplog == old(reaplog))", spec.consts['$LOGS'],
-            'found_empty(self)', 'clock >= old(clock)',
-            "forall(Ref('Watcher'), lambda w: implies(w != self, w.processes == old(w.processes) and w._status == old(w._status)))",
+            'found_empty(self)', 'clock >= old(clock)', "forall(Ref('Process'), lambda q: implies(old(allocated(q)), q.pid == old(q.pid) and q.wid == old(q.wid)))",
+            "forall(Ref('Watcher'), lambda w: implies(w != self, w.processes == old(w.processes) and len(w.processes) == len(old(w.processes)) and w._status == old(w._status) and w._found_wids == old(w._found_wids)))",
         ],
         raises={'RuntimeError': []},
         modifies=['*'],
         loops={
             0: Loop(invariant=['loop_n == 0'], fingerprint='for:self._found_wids', modifies=[]),
             1: Loop(invariant=[
-                SPKEEP, MINE, PACED, 'excl', 'wf_w(self)',
+                SPKEEP, MINE, PACED, TIMED, 'excl', 'wf_w(self)',
                 "self._status == old(self._status)", "self._status != 'stopped' or loop_i == 0 or True",
                 "implies(old(self._status) != 'stopped', len(self.processes) == len(old(self.processes)) + loop_i and "
                 "length(spawnlog) == length(old(spawnlog)) + loop_i)",
@@ -516,8 +520,8 @@ def declare(spec):
                 "implies(length(spawnlog) > length(old(spawnlog)), clock >= sig_t(last(spawnlog)) + old(self.warmup_delay))",
                 "self.numprocesses == old(self.numprocesses)", "self.warmup_delay == old(self.warmup_delay)",
                 "not self.on_demand", "not isnull(self.arbiter)", "is_str(self.cmd)", "self.graceful_timeout >= 0",
-                'clock >= old(clock)', 'reaplog == old(reaplog)', spec.consts['$LOGS'], 'found_empty(self)',
-                "forall(Ref('Watcher'), lambda w: implies(w != self, w.processes == old(w.processes) and w._status == old(w._status)))",
+                'clock >= old(clock)', 'reaplog == old(reaplog)', spec.consts['$LOGS'], 'found_empty(self)', "forall(Ref('Process'), lambda q: implies(old(allocated(q)), q.pid == old(q.pid) and q.wid == old(q.wid)))",
+                "forall(Ref('Watcher'), lambda w: implies(w != self, w.processes == old(w.processes) and len(w.processes) == len(old(w.processes)) and w._status == old(w._status) and w._found_wids == old(w._found_wids)))",
                 prot(exc=('Watcher.processes', 'Watcher._found_wids', 'spawnlog', 'spevlog', 'reaplog', 'K_child')),
             ], fingerprint='for:range(self.numprocesses - len(self.processes))'),
         },
@@ -537,7 +541,7 @@ def declare(spec):
         requires=LIFE_REQ + ["implies(self._status == 'stopped', len(self.processes) == 0)",
                              "self._status == 'stopped' or self._status == 'active'"],
         ensures=[
-            SPKEEP, MINE, PACED, 'excl', 'wf_w(self)',
+            SPKEEP, MINE, PACED, ('spawns-timed', TIMED), 'clock >= old(clock)', 'excl', 'wf_w(self)',
             # a start from stopped ends active or stopped (never in a transient status)
             "implies(old(self._status) == 'stopped', self._status == 'active' or self._status == 'stopped')",
             # before_start gate: falsy (or failing) hook => nothing is spawned, still stopped
@@ -554,7 +558,14 @@ def declare(spec):
             "length(startlog) == length(old(startlog)) + 1)",
             "implies(self._status != 'active' or old(self._status) != 'stopped', startlog == old(startlog))",
             'self.numprocesses == old(self.numprocesses)',
+            # nothing protected changes but this watcher's own table / status / redirector (C19 arbiter level)
+            prot(exc=('Watcher.processes', 'Watcher._status', 'Watcher.stream_redirector', 'Watcher._found_wids',
+                      'spawnlog', 'spevlog', 'reaplog', 'startlog', 'K_child')),
+            ('others-untouched', "forall(Ref('Watcher'), lambda w: implies(w != self, w.processes == old(w.processes) and len(w.processes) == len(old(w.processes)) and "
+             "w._status == old(w._status) and w._found_wids == old(w._found_wids)))"),
+            spec.consts['$LOGS'], 'found_empty(self)', "forall(Ref('Process'), lambda q: implies(old(allocated(q)), q.pid == old(q.pid) and q.wid == old(q.wid)))",
         ],
+        seq_only=('others-untouched',),
         raises={'RuntimeError': []},
         modifies=['*'],
         ghost_at={'notify_event': ["startlog = ite(args[0] == 'start', startlog + [pubev(ref_id(self), 'start', 0, 0)], startlog)"]},
